@@ -268,11 +268,45 @@ def childJudge (f : List String) (out : String) : String :=
     else if out.startsWith "PANIC" then "bad:panic:" ++ out
     else "bad:child:a standard responder did not receive what was sent, or the client not what it answered"
 
+/-! c13.reads  rawhex plen chunk zeroEvery
+   The real streamReader read call by call with a buffer of `plen` bytes, over a connection that
+   delivers `chunk` bytes per Read (0 = all at once) and returns (0, nil) on every `zeroEvery`-th
+   call (0 = never).   out = <split> TAB <whole>,  each  zero=<calls that returned (0,nil)>;out=<hex>;err=<hex>;fin=<…> -/
+def showTrace : R Trace → String
+  | .error f => "PANIC:" ++ f.name
+  | .ok t => s!"zero={t.zero};out={Driver.hex t.out};err={Driver.hex t.stderr};fin={finName t.fin}"
+
+def readsModel : List String → String
+  | [raw, plen, _, _] => match Driver.unhex raw, plen.toNat? with
+    | some raw, some plen => let t := showTrace (readTrace raw plen); t ++ "\t" ++ t
+    | _, _ => "bad-case"
+  | _ => "bad-case"
+
+def zeroOf (half : String) : Option Nat :=
+  match half.splitOn ";" with
+  | z :: _ => (parseField "zero=" z).bind String.toNat?
+  | _ => none
+
+def dropZero (half : String) : String := ";".intercalate ((half.splitOn ";").drop 1)
+
+def readsJudge (f : List String) (out : String) : String :=
+  match f with
+  | [raw, _, _, _] =>
+    match Driver.unhex raw, out.splitOn "\t" with
+    | some raw, [a, b] =>
+      if out.startsWith "PANIC" || b.startsWith "PANIC" then "bad:panic:" ++ out
+      else match zeroOf a, zeroOf b with
+        | some za, some zb => readsVerdict raw za zb (dropZero a == dropZero b)
+        | _, _ => "bad:no-progress:" ++ (out.take 80).toString
+    | _, _ => "bad:unparsable:" ++ (out.take 60).toString
+  | _ => "bad:unparsable:case"
+
 def streams : List Driver.Stream := [
   { name := "c13.wire", model := wireModel, judge := wireJudge },
   { name := "c13.demux", model := demuxModel, judge := demuxJudge },
   { name := "c13.route", model := routeModel, judge := routeJudge },
-  { name := "c13.child", model := childModel, judge := childJudge }
+  { name := "c13.child", model := childModel, judge := childJudge },
+  { name := "c13.reads", model := readsModel, judge := readsJudge }
 ]
 
 end Driver.C13
